@@ -1508,3 +1508,147 @@ Section FirstWrite.
     - apply Forall_app; split; [auto|]. apply Forall_app; split; [auto|]. apply Forall_app; split; auto.
   Qed.
 End FirstWrite.
+
+Lemma place_lines_nil : forall lsz n pos, place (repeat (SF lsz) n) pos = [].
+Proof. intros lsz n. induction n; intros pos; simpl; auto. Qed.
+Lemma place_opt_nil : forall b k pos, place (s_opt b (SF k)) pos = [].
+Proof. intros [] k pos; reflexivity. Qed.
+
+Lemma row_width : forall xdim sx tx cx, 1 <= tx -> 1 <= cx -> sx + (cx - 1) * tx < xdim ->
+    cx + (cx - 1) * (tx - 1) + (xdim - (sx + (cx - 1) * tx + 1) + sx) = xdim.
+Proof.
+  intros xdim sx tx cx Ht Hc H. destruct cx as [|c]; [lia|]. destruct tx as [|t]; [lia|].
+  replace (S c - 1) with c in * by lia. replace (S t - 1) with t by lia. nia.
+Qed.
+
+Lemma first_write_fills_image_lemma : forall {P} (d f : P) (data : list P) xdim ydim r,
+    rgn_inside xdim ydim r = true -> length data = r_cx r * r_cy r ->
+    gr_write_px None xdim ydim r f data = spec_write_px d (repeat f (xdim * ydim)) xdim ydim r data.
+Proof.
+  intros P d f data xdim ydim r Hin Hd.
+  pose proof (inside_facts _ _ _ Hin) as (Htx & Hty & Hcx & Hcy & Hx & Hy).
+  assert (HlenF : length (repeat f (xdim * ydim)) = xdim * ydim) by apply repeat_length.
+  destruct (whole_image xdim ydim r) eqn:Ew.
+  - rewrite <- (region_write_refines_lemma d (repeat f (xdim * ydim)) data xdim ydim r f HlenF Hin Hd).
+    assert (Hw := Ew). unfold whole_image, solid_block in Hw.
+    repeat (apply andb_prop in Hw; destruct Hw as [Hw ?]).
+    repeat match goal with H : (_ =? _) = true |- _ => apply Nat.eqb_eq in H end.
+    rewrite !whole_write_lemma; auto; try (subst; lia).
+    + intros l El. injection El as <-. auto.
+    + intros l El. discriminate.
+  - destruct (first_write_covers_image_lemma (repeat f xdim) xdim ydim r data (repeat_length _ _) Hin Ew Hd) as (_ & _ & Hrun).
+    unfold gr_write_px. rewrite Hrun. cbn [fst].
+    rewrite <- (px_trace_spec d (repeat f (xdim * ydim)) data xdim ydim r HlenF Hin Hd).
+    (* the generator in shadow form *)
+    unfold gr_write_ops. rewrite Ew.
+    unfold Gb, G, wr_fill_lo_cond, wr_fill_hi_cond, wr_fill_lo_size, wr_fill_hi_size, wr_fill_line_size,
+      wr_pix_len, wr_trail_to_0, wr_trail_from_0, wr_trail_to_1, wr_trail_from_1, wr_fill_stride_size.
+    rewrite ?Nat.mul_1_l.
+    set (lo := if 0 <? r_sx r then r_sx r else 0).
+    set (hi := if r_sx r + (r_cx r - 1) * r_tx r + 1 <? xdim then xdim - (r_sx r + (r_cx r - 1) * r_tx r + 1) else 0).
+    assert (Elo : lo = r_sx r) by (subst lo; destruct (r_sx r); reflexivity).
+    assert (Ehi : hi = xdim - (r_sx r + (r_cx r - 1) * r_tx r + 1)).
+    { subst hi. destruct (r_sx r + (r_cx r - 1) * r_tx r + 1 <? xdim) eqn:E; auto. apply Nat.ltb_ge in E. lia. }
+    clearbody lo hi.
+    set (tr := ydim - (r_sy r + (r_cy r - 1) * r_ty r + 1)).
+    assert (Hlo : lo <= xdim) by (rewrite Elo; clear - Hx; nia).
+    assert (Hhi : hi <= xdim) by (rewrite Ehi; clear; lia).
+    assert (Hhl : hi + lo <= xdim) by (rewrite Elo, Ehi; clear - Hx; nia).
+    change data with (skipn 0 data) at 1 2.
+    destruct (lines_layout xdim data xdim (r_sy r) 0 (le_n _)) as (A1 & A2 & A3).
+    destruct (solid_block r) eqn:Es.
+    + unfold solid_block in Es. apply andb_prop in Es. destruct Es as [E1 E2].
+      apply Nat.eqb_eq in E1. apply Nat.eqb_eq in E2.
+      set (segs := repeat (SF xdim) (r_sy r) ++ s_opt (0 <? lo) (SF lo) ++ s_solid_rows (r_cy r) (r_cx r) (hi + lo) 0
+                          ++ s_opt (0 <? hi) (SF hi) ++ repeat (SF xdim) tr).
+      assert (Hops : map (realize f xdim data) segs =
+                     fill_lines (repeat f xdim) xdim (r_sy r) ++ opt_w (0 <? lo) (wfill (repeat f xdim) lo)
+                       ++ solid_fill_rows (r_cy r) (r_cx r) (hi + lo) (repeat f xdim) (skipn 0 data)
+                       ++ opt_w (0 <? hi) (wfill (repeat f xdim) hi) ++ fill_lines (repeat f xdim) xdim tr).
+      { subst segs. rewrite !map_app, !realize_lines, !realize_opt, realize_solid_rows. reflexivity. }
+      rewrite <- Hops.
+      destruct (opt_layout xdim data (0 <? lo) lo (r_sy r * xdim) Hlo) as (B1 & B2 & B3).
+      assert (B2' : total (s_opt (0 <? lo) (SF lo)) = lo) by (rewrite B2; destruct lo; reflexivity).
+      destruct (solid_rows_layout xdim data (r_cy r) (r_cx r) (hi + lo) 0 (r_sy r * xdim + lo) Hhl ltac:(lia)) as (C1 & C2 & C3).
+      destruct (opt_layout xdim data (0 <? hi) hi (r_sy r * xdim + lo + (r_cy r * r_cx r + (r_cy r - 1) * (hi + lo))) Hhi) as (D1 & D2 & D3).
+      assert (D2' : total (s_opt (0 <? hi) (SF hi)) = hi) by (rewrite D2; destruct hi; reflexivity).
+      destruct (lines_layout xdim data xdim tr
+                             (r_sy r * xdim + lo + (r_cy r * r_cx r + (r_cy r - 1) * (hi + lo)) + hi) (le_n _)) as (F1 & F2 & F3).
+      assert (Hok : Forall (seg_ok xdim data) segs).
+      { subst segs. apply Forall_app; split; [auto|]. apply Forall_app; split; [auto|].
+        apply Forall_app; split; [auto|]. apply Forall_app; split; auto. }
+      assert (Htot : total segs = xdim * ydim).
+      { subst segs. rewrite !total_app, A2, B2', C2, D2', F2. subst tr. rewrite E1, E2 in *.
+        pose proof (solid_total xdim ydim (r_sx r) (r_sy r) (r_cx r) (r_cy r) lo hi Hcx Hcy Hx Hy Elo Ehi). lia. }
+      assert (Hpl : place segs 0 = px_trace xdim r).
+      { subst segs. rewrite !place_app, !place_lines_nil, !place_opt_nil, A2, B2'. cbn [app]. simpl (0 + _).
+        rewrite C1, !app_nil_r. unfold px_trace.
+        apply flat_map_ext_in'. intros i Hi. apply in_seq in Hi. apply map_ext_in. intros j Hj. apply in_seq in Hj.
+        unfold ppos. rewrite E1, E2.
+        pose proof (row_width xdim (r_sx r) (r_tx r) (r_cx r) Htx Hcx Hx) as RW. rewrite E1 in RW.
+        apply f_equal2; [lia|]. subst lo hi. rewrite E1. nia. }
+      pose proof (stream_is_trace f xdim data segs [] Hok) as ST. cbn [length app] in ST.
+      rewrite <- ST, Hpl, Htot. reflexivity.
+    + set (gap := r_tx r - 1).
+      set (segs := repeat (SF xdim) (r_sy r) ++ s_opt (0 <? lo) (SF lo)
+                          ++ s_rows (r_cy r) (r_cx r) gap (1 <? r_tx r) (1 <? r_ty r) (r_ty r) xdim (hi + lo) 0
+                          ++ s_opt (0 <? hi) (SF hi) ++ repeat (SF xdim) tr).
+      assert (Hops : map (realize f xdim data) segs =
+                     fill_lines (repeat f xdim) xdim (r_sy r) ++ opt_w (0 <? lo) (wfill (repeat f xdim) lo)
+                       ++ strided_fill_rows (r_cy r) (r_cx r) gap 1 (1 <? r_tx r) (1 <? r_ty r) (r_ty r) xdim (hi + lo)
+                                            (repeat f xdim) (skipn 0 data)
+                       ++ opt_w (0 <? hi) (wfill (repeat f xdim) hi) ++ fill_lines (repeat f xdim) xdim tr).
+      { subst segs. rewrite !map_app, !realize_lines, !realize_opt, realize_rows. reflexivity. }
+      rewrite <- Hops.
+      assert (Hfx : (1 <? r_tx r) = false -> gap = 0) by (intros E; apply Nat.ltb_ge in E; subst gap; lia).
+      assert (Hfy : (1 <? r_ty r) = false -> r_ty r - 1 = 0) by (intros E; apply Nat.ltb_ge in E; lia).
+      assert (Hg : 2 <= r_cx r -> gap <= xdim).
+      { intros H2. subst gap. assert (r_tx r * 1 <= (r_cx r - 1) * r_tx r) by nia. lia. }
+      destruct (opt_layout xdim data (0 <? lo) lo (r_sy r * xdim) Hlo) as (B1 & B2 & B3).
+      assert (B2' : total (s_opt (0 <? lo) (SF lo)) = lo) by (rewrite B2; destruct lo; reflexivity).
+      destruct (rows_layout xdim data (r_cy r) (r_cx r) gap (1 <? r_tx r) (1 <? r_ty r) (r_ty r) xdim (hi + lo) 0
+                            (r_sy r * xdim + lo) Hg Hfx Hfy (le_n _) Hhl ltac:(lia)) as (C1 & C2 & C3).
+      set (TS := r_cy r * (r_cx r + (r_cx r - 1) * gap) + (r_cy r - 1) * ((r_ty r - 1) * xdim + (hi + lo))) in *.
+      destruct (opt_layout xdim data (0 <? hi) hi (r_sy r * xdim + lo + TS) Hhi) as (D1 & D2 & D3).
+      assert (D2' : total (s_opt (0 <? hi) (SF hi)) = hi) by (rewrite D2; destruct hi; reflexivity).
+      destruct (lines_layout xdim data xdim tr (r_sy r * xdim + lo + TS + hi) (le_n _)) as (F1 & F2 & F3).
+      assert (Hok : Forall (seg_ok xdim data) segs).
+      { subst segs. apply Forall_app; split; [auto|]. apply Forall_app; split; [auto|].
+        apply Forall_app; split; [auto|]. apply Forall_app; split; auto. }
+      assert (Htot : total segs = xdim * ydim).
+      { subst segs. rewrite !total_app, A2, B2', C2, D2', F2. subst tr TS gap.
+        pose proof (strided_total xdim ydim (r_sx r) (r_sy r) (r_tx r) (r_ty r) (r_cx r) (r_cy r) lo hi
+                                  Htx Hty Hcx Hcy Hx Hy Elo Ehi). lia. }
+      assert (Hpl : place segs 0 = px_trace xdim r).
+      { subst segs. rewrite !place_app, !place_lines_nil, !place_opt_nil, A2, B2'. cbn [app]. simpl (0 + _).
+        rewrite C1, !app_nil_r. unfold px_trace.
+        apply flat_map_ext_in'. intros i Hi. apply in_seq in Hi. apply map_ext_in. intros j Hj. apply in_seq in Hj.
+        unfold ppos.
+        pose proof (row_width xdim (r_sx r) (r_tx r) (r_cx r) Htx Hcx Hx) as RW.
+        assert (ER : r_cx r + (r_cx r - 1) * gap + (r_ty r - 1) * xdim + (hi + lo) = r_ty r * xdim).
+        { subst gap lo hi. clear - RW Hty. destruct (r_ty r) as [|t]; [lia|]. replace (S t - 1) with t by lia. lia. }
+        rewrite ER. apply f_equal2; [lia|]. subst gap lo. clear - Htx. destruct (r_tx r) as [|t]; [lia|].
+        replace (1 + (S t - 1)) with (S t) by lia. lia. }
+      pose proof (stream_is_trace f xdim data segs [] Hok) as ST. cbn [length app] in ST.
+      rewrite <- ST, Hpl, Htot. reflexivity.
+Qed.
+
+Lemma region_refines_image_lemma : forall (P : Type) (d : P) (e data : list P) xdim ydim r (f : P),
+    length e = xdim * ydim -> rgn_inside xdim ydim r = true -> length data = r_cx r * r_cy r ->
+    gr_write_px (Some e) xdim ydim r f data = spec_write_px d e xdim ydim r data /\
+    gr_read_px e xdim ydim r = spec_read_px d e xdim r.
+Proof.
+  intros P d e data xdim ydim r f H1 H2 H3. split.
+  - exact (region_write_refines_lemma d e data xdim ydim r f H1 H2 H3).
+  - exact (region_read_refines_lemma d e xdim ydim r H1 H2).
+Qed.
+
+Lemma read_after_write_lemma : forall (P : Type) (d : P) (e data : list P) xdim ydim r (f : P),
+    length e = xdim * ydim -> rgn_inside xdim ydim r = true -> length data = r_cx r * r_cy r ->
+    gr_read_px (gr_write_px (Some e) xdim ydim r f data) xdim ydim r =
+    spec_read_px d (spec_write_px d e xdim ydim r data) xdim r.
+Proof.
+  intros P d e data xdim ydim r f H1 H2 H3.
+  rewrite (region_write_refines_lemma d e data xdim ydim r f H1 H2 H3).
+  apply region_read_refines_lemma; auto. unfold spec_write_px. rewrite map_length, seq_length. reflexivity.
+Qed.
